@@ -42,7 +42,7 @@ pub enum Mode {
 
 pub const VICTIMS: &[&str] = &[
     "CreateTopic", "DeleteTopic", "GetTopic", "CreateSubscription", "DeleteSubscription", "GetSubscription", "ListTopics", "ListSubscriptions", "ListTopicSubscriptions", "Publish", "Pull", "Acknowledge",
-    "ModifyAckDeadline(0)", "ModifyAckDeadline(30)", "StreamingPull open", "StreamingPull control message", "CreateSubscription(push)",
+    "ModifyAckDeadline(0)", "ModifyAckDeadline(30)", "StreamingPull open", "StreamingPull control message", "CreateSubscription(push)", "CreateSubscription then immediate retry",
 ];
 
 fn victim_op(v: u8) -> Option<Op> {
@@ -62,6 +62,7 @@ fn victim_op(v: u8) -> Option<Op> {
         12 => Op::Modify { s: S0, refs: vec![AckRef::Recent(0)], secs: 0, a: false },
         13 => Op::Modify { s: S0, refs: vec![AckRef::Recent(0)], secs: 30, a: false },
         16 => Op::CreateSub { s: S { p: 0, i: 6 }, t: T0, dl: 10, push: 1, a: false },
+        17 => Op::CreateSub { s: S { p: 0, i: 5 }, t: T0, dl: 10, push: 0, a: false },
         _ => return None,
     })
 }
@@ -126,6 +127,10 @@ pub fn build(c: &C16Case, mode: Mode) -> (Case, usize) {
                 Mode::Abandon => ops.push(Op::PollDrop { op: Box::new(op), k: c.k, settle_between: c.settle_between }),
                 Mode::Complete => ops.push(op),
                 Mode::Never => {}
+            }
+            if v == 17 {
+                // the client did not get an answer and asks again at once (in every mode)
+                ops.push(Op::CreateSub { s: S { p: 0, i: 5 }, t: T0, dl: 10, push: 0, a: false });
             }
         }
     }
